@@ -223,6 +223,7 @@ CHECKS["C11"] = {
                     "an access that stays inside a neighbouring mapped object is only visible in the flush placements, which is why every length is placed flush"],
     "prepare": {"generic": [["python3", "{verif}/tools/prep_generic.py", "{repo}"]]},
     "parts": [
+        {"name": "asm-footprint", "cmd": ["env", "VX_FOOTPRINT_PROP=C11", "python3", "{verif}/tools/asmfootprint.py"]},
         {"name": "guard-asm", "pkg": "sm4", "run": "TestVX_C11_Asm", "kind": "internal", "files": ["sm4/C11_int_test.go"], "shards": 4},
         {"name": "guard-public", "pkg": "sm4", "run": "TestVX_C11", "public_files": SM4P + ["sm4/C10_pub_test.go", "sm4/C11_pub_test.go"], "shards": 16, "env": {"VX_PART": "seal"}},
         {"name": "guard-public-generic", "variant": "generic", "pkg": "sm4", "run": "TestVX_C11", "public_files": SM4P + ["sm4/C10_pub_test.go", "sm4/C11_pub_test.go"],
@@ -260,6 +261,7 @@ CHECKS["C17"] = {
         {"name": "sched-sm4-generic", "variant": "schedgen", "pkg": "sm4", "run": "TestVX_C17_SM4", "public_files": C17F, "shards": 6, "env": {"VX_PART": "sched-sm4-generic"}},
         {"name": "sched-sm2", "variant": "sched", "pkg": "sm2", "run": "TestVX_C17_SM2", "public_files": SM2P + ["sm2/C17_pub_test.go"], "shards": 2},
         {"name": "asm-static-state", "cmd": ["env", "VX_ASMTAINT_ONLY=static-write", "VX_ASMTAINT_PROP=C17", "VX_ASMTAINT_PART=asm-static-state", "python3", "{verif}/tools/asmtaint.py"]},
+        {"name": "asm-footprint", "cmd": ["python3", "{verif}/tools/asmfootprint.py"]},
         {"name": "race-sm4", "variant": "sched", "race": True, "pkg": "sm4", "run": "TestVX_C17_SM4_Race", "public_files": C17F, "gomaxprocs": 16},
         {"name": "race-sm2", "variant": "sched", "race": True, "pkg": "sm2", "run": "TestVX_C17_SM2_Race", "public_files": SM2P + ["sm2/C17_pub_test.go"], "gomaxprocs": 16},
         {"name": "cold-concurrent", "race": True, "pkg": "sm2", "run": "TestVX_SM2Cold", "public_files": SM2P + ["sm2/Cold_pub_test.go"], "gomaxprocs": 16, "shards": 8,
